@@ -930,6 +930,10 @@ func (x *ttlCtx) checkRedis() {
 						okMap = false
 						c.violated("C05.redis-mapping", cons+" must-not-exist", e.Pos, "must-not-exist is set but a plain SET (which overwrites) is issued", c.witness(t, i)...)
 					}
+					if !mk && okMap {
+						okMap = false
+						c.violated("C05.redis-mapping", cons+" must-not-exist", e.Pos, "a plain SET (which overwrites) is issued on a path that never examined must-not-exist: combined with another option (keep-ttl) the request overwrites a live key on redis while the in-memory back-end reports already-exists", c.witness(t, i)...)
+					}
 					// expiration argument
 					ex := e.Args[len(e.Args)-1]
 					v, isC := ex.intConst()
